@@ -33,6 +33,16 @@ type Chan[T any] struct {
 
 func MakeChan[T any](n int) *Chan[T] { return &Chan[T]{cap: n} }
 
+// asT converts a parked value back to T; a nil interface value (e.g. `ch <- nil` on a channel of an interface
+// type) is the zero T.
+func asT[T any](v interface{}) T {
+	if v == nil {
+		var z T
+		return z
+	}
+	return v.(T)
+}
+
 func (c *Chan[T]) Len() int { return len(c.buf) }
 func (c *Chan[T]) Cap() int { return c.cap }
 
@@ -99,14 +109,14 @@ func (c *Chan[T]) doRecv() (v T, ok bool) {
 		if w := firstUnmatched(c.sendW); w != nil && c.cap > 0 {
 			w.match()
 			w.ch = c
-			c.buf = append(c.buf, w.val.(T))
+			c.buf = append(c.buf, asT[T](w.val))
 		}
 		return v, true
 	}
 	if w := firstUnmatched(c.sendW); w != nil {
 		w.match()
 		w.ch = c
-		return w.val.(T), true
+		return asT[T](w.val), true
 	}
 	return v, false // closed
 }
@@ -150,7 +160,7 @@ func Recv2[T any](c *Chan[T]) (T, bool) {
 	rt.Block(func() bool { return w.matched || c.closed || len(c.buf) > 0 })
 	c.recvW = remove(c.recvW, w)
 	if w.matched {
-		return w.val.(T), true
+		return asT[T](w.val), true
 	}
 	return c.doRecv()
 }
@@ -221,7 +231,7 @@ func SendCase[T any](c *Chan[T], v T) Case {
 		unpark: func(w *waiter) { c.sendW = remove(c.sendW, w) }}
 }
 
-func SelRecv[T any](c *Chan[T], r SelResult) T { v, _ := r.val.(T); return v }
+func SelRecv[T any](c *Chan[T], r SelResult) T { return asT[T](r.val) }
 func SelRecv2[T any](c *Chan[T], r SelResult) (T, bool) {
 	v, _ := r.val.(T)
 	return v, r.ok
